@@ -444,6 +444,12 @@ impl Family for CorpusMut {
 
 // ------------------------------------------------------------------ nesting ladders (C04 L4)
 
+/// constructs that are long rather than deep in the source text (each still a chain in some tree)
+pub const BREADTH_LADDERS: [&str; 12] = [
+    "else-if-chain", "let-sequence", "statement-sequence", "many-functions", "many-match-arms", "many-variants", "many-struct-fields", "many-arguments", "string-concat", "and-chain",
+    "method-chain", "many-closures",
+];
+
 pub const LADDERS: [&str; 16] = [
     "parens", "unary-neg", "unary-not", "binary-left", "binary-right", "calls", "if-blocks", "closures", "tuples", "arrays", "types-tuple",
     "types-array", "patterns", "match-in-match", "field-chain", "generic-inst",
@@ -494,6 +500,86 @@ pub fn ladder_text(kind: &str, d: usize) -> Option<String> {
                 rep(" }", d)
             )
         }
+        "else-if-chain" => {
+            let mut t = String::from("fn pick(k: int32) -> int32 {\n    if k == 0 { 0 }");
+            for i in 1..=d {
+                t.push_str(&format!(" else if k == {} {{ {} }}", i, i));
+            }
+            t.push_str(" else { 0 - 1 }\n}\nfn main() { string_println(int32_to_string(pick(3))) }");
+            t
+        }
+        "let-sequence" => {
+            let mut t = String::from("fn main() {\n    let a0 = 1;\n");
+            for i in 1..=d {
+                t.push_str(&format!("    let a{} = a{} + 1;\n", i, i - 1));
+            }
+            t.push_str(&format!("    string_println(int32_to_string(a{}))\n}}", d));
+            t
+        }
+        "statement-sequence" => {
+            let mut t = String::from("fn main() {\n");
+            for i in 0..d {
+                t.push_str(&format!("    string_println(\"{}\");\n", i));
+            }
+            t.push_str("    ()\n}");
+            t
+        }
+        "many-functions" => {
+            let mut t = String::from("fn f0() -> int32 { 0 }\n");
+            for i in 1..=d {
+                t.push_str(&format!("fn f{}() -> int32 {{ f{}() + 1 }}\n", i, i - 1));
+            }
+            t.push_str(&format!("fn main() {{ string_println(int32_to_string(f{}())) }}", d));
+            t
+        }
+        "many-match-arms" => {
+            let mut t = String::from("fn pick(k: int32) -> int32 {\n    match k {\n");
+            for i in 0..d {
+                t.push_str(&format!("        {} => {},\n", i, i + 1));
+            }
+            t.push_str("        _ => 0,\n    }\n}\nfn main() { string_println(int32_to_string(pick(2))) }");
+            t
+        }
+        "many-variants" => {
+            let mut t = String::from("enum E {\n");
+            for i in 0..=d {
+                t.push_str(&format!("    V{}(int32),\n", i));
+            }
+            t.push_str("}\nfn code(e: E) -> int32 {\n    match e {\n");
+            for i in 0..=d {
+                t.push_str(&format!("        V{}(x) => x + {},\n", i, i));
+            }
+            t.push_str(&format!("    }}\n}}\nfn main() {{ string_println(int32_to_string(code(V{}(1)))) }}", d));
+            t
+        }
+        "many-struct-fields" => {
+            let mut t = String::from("struct S {\n");
+            for i in 0..=d {
+                t.push_str(&format!("    f{}: int32,\n", i));
+            }
+            t.push_str("}\nfn main() {\n    let s = S {\n");
+            for i in 0..=d {
+                t.push_str(&format!("        f{}: {},\n", i, i));
+            }
+            t.push_str(&format!("    }};\n    string_println(int32_to_string(s.f{}))\n}}", d));
+            t
+        }
+        "many-arguments" => {
+            let params: Vec<String> = (0..=d).map(|i| format!("p{}: int32", i)).collect();
+            let args: Vec<String> = (0..=d).map(|i| i.to_string()).collect();
+            format!("fn f({}) -> int32 {{ p{} }}\nfn main() {{ string_println(int32_to_string(f({}))) }}", params.join(", "), d, args.join(", "))
+        }
+        "string-concat" => format!("fn main() {{ let s = \"a\"{}; string_println(s) }}", rep(" + \"b\"", d)),
+        "and-chain" => format!("fn main() {{ let b = true{}; string_println(bool_to_string(b)) }}", rep(" && true", d)),
+        "method-chain" => format!("struct S {{ v: int32 }}\nimpl S {{ fn inc(self: S) -> S {{ S {{ v: self.v + 1 }} }} }}\nfn main() {{ let s = S {{ v: 0 }}; let t: S = s{}; string_println(int32_to_string(t.v)) }}", rep(".inc()", d)),
+        "many-closures" => {
+            let mut t = String::from("fn main() {\n    let k = 1;\n");
+            for i in 0..=d {
+                t.push_str(&format!("    let c{} = |x: int32| x + k + {};\n", i, i));
+            }
+            t.push_str(&format!("    string_println(int32_to_string(c{}(1)))\n}}", d));
+            t
+        }
         _ => return None,
     })
 }
@@ -508,7 +594,7 @@ impl Family for Ladders {
         &["C04"]
     }
     fn rule(&self) -> &'static str {
-        "nesting ladders: 16 nesting constructs x depths 1,2,4,…,64 (thorough: 128), each compiled on the 8 MiB main-thread stack of a worker process; a stack overflow kills the worker and is attributed to the case; distinct = distinct (construct, depth)"
+        "nesting ladders: 16 nesting constructs x depths 1,2,4,…,64 (thorough: 128), and 12 constructs that are long rather than deep (else-if chain, let / statement sequences, functions, match arms, variants, struct fields, arguments, string concatenation, && chain, method chain, closures) x lengths 1,2,4,…,512 (thorough: 2048), each compiled in a worker process on a thread with the stack the goml binary gives its compiler thread (1 GiB; the binary itself is run on the same ladders by the `cli` family); a stack overflow kills the worker and is attributed to the case; distinct = distinct (construct, depth)"
     }
     fn cases(&self, tier: Tier) -> Box<dyn Iterator<Item = Value> + '_> {
         let mut v = Vec::new();
@@ -516,6 +602,14 @@ impl Family for Ladders {
         for k in LADDERS {
             let mut d = 1;
             while d <= maxd {
+                v.push(json!({"ladder": k, "depth": d}));
+                d *= 2;
+            }
+        }
+        let maxb = if tier == Tier::Quick { 512 } else { 2048 };
+        for k in BREADTH_LADDERS {
+            let mut d = 1;
+            while d <= maxb {
                 v.push(json!({"ladder": k, "depth": d}));
                 d *= 2;
             }
@@ -538,7 +632,18 @@ impl Family for Ladders {
         let d = case["depth"].as_u64().unwrap() as usize;
         let Some(t) = ladder_text(kind, d) else { return rep };
         let path = ctx.scratch.single_path();
-        for (c, dd) in check_lossless(&t) {
+        // the passes recurse over the tree; the goml binary runs them on a 1 GiB stack
+        // (COMPILER_STACK_BYTES in main.rs, exercised for real by the `cli` family), so this
+        // library-level ladder gets the same room
+        let (lossless, (tag, viol)) = {
+            let t2 = t.clone();
+            let h = std::thread::Builder::new().stack_size(1 << 30).spawn(move || (check_lossless(&t2), check_total(&path, &t2))).expect("spawn ladder thread");
+            match h.join() {
+                Ok(r) => r,
+                Err(p) => (Vec::new(), ("panic".to_string(), vec![("compile.panic".to_string(), normalise_msg(&crate::oracle::panic_message(p)))])),
+            }
+        };
+        for (c, dd) in lossless {
             rep.findings.push(Finding {
                 property: "C04",
                 class: format!("parse.{}", c),
@@ -547,7 +652,6 @@ impl Family for Ladders {
                 replay: json!({"kind": "text", "text": t, "oracle": "lossless"}),
             });
         }
-        let (tag, viol) = check_total(&path, &t);
         rep.tag(format!("ladder:{}:{}", kind, tag));
         for (c, dd) in viol {
             rep.findings.push(Finding {
